@@ -25,6 +25,7 @@ properties! {
     "C04" => c04,
     "C05" => c05,
     "C06" => c06,
+    "C09" => c09,
     "C11" => c11,
     "C16" => c16,
     "C17" => c17,
